@@ -367,6 +367,32 @@ def single_edm_frames(stream):
   return out
 
 
+def depth_reduction_frames(stream):
+  """Frames between a channel-1 roll-up command that asks for FEWER rows than the roll-up command before it and the next
+  channel-1 carriage return / erase / change of mode (a fact about the input: the shape of a recorded finding)."""
+  out = set()
+  depth = None
+  reduced = False
+  rollup = False
+  for fr, ws in stream["lines"]:
+    for j, w in enumerate(ws):
+      w &= 0x7F7F
+      if w in (0x1425, 0x1426, 0x1427):
+        k = w - 0x1423
+        if rollup and depth is not None and k < depth:
+          reduced = True
+        depth = k
+        rollup = True
+      elif w in (0x142D, 0x142C, 0x1420, 0x1429, 0x142F):
+        reduced = False
+        if w in (0x1420, 0x1429, 0x142F):
+          rollup = False
+          depth = None
+      if reduced:
+        out.add(fr + j)
+  return out
+
+
 def stream_case(stream, aux, fails):
   return {"scc": aux["text"], "text_align": stream["align"], "df": stream["df"],
           "paragraphs": [{"id": p["id"], "begin_frames": p["b"], "end_frames": p["e"], "style": p["style"],
@@ -525,12 +551,15 @@ def run(ctx):
           kmax = max(kmax, k)
           shift_is_k = shift_is_k and ok
     single_edm = single_edm_frames(s)
+    reduced = depth_reduction_frames(s)
     groups = {}
     for fr, clause in fl:
       if vset is not None and (fr, clause) not in vset:
         cause = "suppressed_duplicate_clock"
       elif (clause == "end_frame" and fr - 2 in single_edm) or (clause not in TIMING_CLAUSES and fr - 1 in single_edm):
         cause = "single_edm_one_frame_late"
+      elif fr in reduced and (clause.startswith("rollup_") or clause == "other_channel_ignored"):
+        cause = "rollup_depth_reduced_rows_kept_until_cr"
       else:
         cause = "other"
       groups.setdefault((clause, cause), []).append(fr)
